@@ -71,6 +71,69 @@ theorem reachable_spec {blocks : List Block} {rs : List Nat} (h : reachable bloc
     rw [← hfix']; exact this
   · cases h
 
+/-! ### `update_reachable` computes exactly graph reachability from the entry -/
+
+/-- there is a path over real edges -/
+inductive Path (blocks : List Block) : Nat → Nat → Prop where
+  | refl (a : Nat) : Path blocks a a
+  | step {a b c : Nat} : Path blocks a b → c ∈ (blkL blocks b).succs → Path blocks a c
+
+theorem addAll_sub (acc xs : List Nat) : ∀ x ∈ addAll acc xs, x ∈ acc ∨ x ∈ xs := by
+  induction xs generalizing acc with
+  | nil => intro x hx; exact Or.inl hx
+  | cons y ys ih =>
+    intro x hx
+    simp only [addAll, List.foldl_cons] at hx
+    have := ih _ x hx
+    rcases this with h | h
+    · split at h
+      · exact Or.inl h
+      · rcases List.mem_append.mp h with h | h
+        · exact Or.inl h
+        · simp only [List.mem_singleton] at h; subst h; exact Or.inr (List.mem_cons_self ..)
+    · exact Or.inr (List.mem_cons_of_mem _ h)
+
+theorem foldl_reach_sub (blocks : List Block) (l acc : List Nat) :
+    ∀ x ∈ l.foldl (fun acc b => addAll acc (blocks[b]?.getD {}).succs) acc,
+      x ∈ acc ∨ ∃ b ∈ l, x ∈ (blocks[b]?.getD {}).succs := by
+  induction l generalizing acc with
+  | nil => intro x hx; exact Or.inl hx
+  | cons y ys ih =>
+    intro x hx
+    simp only [List.foldl_cons] at hx
+    rcases ih _ x hx with h | ⟨b, hb, hxb⟩
+    · rcases addAll_sub _ _ x h with h | h
+      · exact Or.inl h
+      · exact Or.inr ⟨y, List.mem_cons_self .., h⟩
+    · exact Or.inr ⟨b, List.mem_cons_of_mem _ hb, hxb⟩
+
+theorem reachIter_sound (blocks : List Block) (n : Nat) (seen : List Nat) (h : ∀ x ∈ seen, Path blocks 0 x) :
+    ∀ x ∈ reachIter blocks n seen, Path blocks 0 x := by
+  induction n generalizing seen with
+  | zero => exact h
+  | succ n ih =>
+    apply ih
+    intro x hx
+    rcases foldl_reach_sub blocks seen seen x hx with h1 | ⟨b, hb, hxb⟩
+    · exact h x h1
+    · exact Path.step (h b hb) hxb
+
+/-- **the blocks `update_reachable` marks are exactly the blocks reachable from the entry over real edges** -/
+theorem reachable_iff_path {blocks : List Block} {rs : List Nat} (h : reachable blocks = some rs) (b : Nat) :
+    b ∈ rs ↔ Path blocks 0 b := by
+  obtain ⟨h0, hcl⟩ := reachable_spec h
+  constructor
+  · intro hb
+    simp only [reachable] at h
+    split at h
+    · cases h
+      exact reachIter_sound blocks _ [0] (fun x hx => by simp only [List.mem_singleton] at hx; subst hx; exact Path.refl 0) b hb
+    · cases h
+  · intro hp
+    induction hp with
+    | refl => exact h0
+    | step _ hc ih => exact hcl _ ih _ hc
+
 /-! ### blocks after `setReach` / `prune` -/
 
 theorem blkL_setReach (rs : List Nat) (bl : List Block) (i : Nat) (hi : i < bl.length) :
